@@ -724,7 +724,9 @@ def matchKnown (d : Decls) (defs : Defs) (symCtx : List String) : Nat → IMatch
   | fuel + 1, m =>
     let rule := (defs.ruledefs.getD m.ruledef default).rules.getD m.rule default
     let qv : Nat → List String → Bool := fun level path =>
-      match d.symbols.tryGetByName symCtx level path with
+      -- a builtin takes precedence over a declared symbol of the same name
+      if level == 0 && (path.head? == some "$" || path.head? == some "pc" || (path.head?.map isAsmBuiltinName).getD false) then false
+      else match d.symbols.tryGetByName symCtx level path with
       | none => false
       | some r => (defs.sym r).known
     -- arguments are judged outside the rule's scope (`args_provider`); the production with
